@@ -299,7 +299,7 @@ def _radar_tol(rho, el):
     return rho * (2e-12 + min(3e-14 / max(c, 1e-300), 2e-6))
 
 
-def _make_obs(t, target_id, tgt, sensor_id, sen, sensor_type, with_rr=True, optical=False):
+def _make_obs(t, target_id, tgt, sensor_id, sen, sensor_type, with_rr=True, optical=False, epoch_jd=None):
     from resonaate.data.observation import Observation
     from resonaate.physics.measurements import Measurement
 
@@ -308,7 +308,7 @@ def _make_obs(t, target_id, tgt, sensor_id, sen, sensor_type, with_rr=True, opti
     else:
         labels = LABELS4 if with_rr else LABELS4[:3]
     meas = Measurement.fromMeasurementLabels(labels, np.eye(len(labels)) * 1e-12)
-    return Observation.fromMeasurement(epoch_jd=timeref.jd_float(t), target_id=target_id, tgt_eci_state=np.asarray(tgt, dtype=float),
+    return Observation.fromMeasurement(epoch_jd=timeref.jd_float(t) if epoch_jd is None else epoch_jd, target_id=target_id, tgt_eci_state=np.asarray(tgt, dtype=float),
                                        sensor_id=sensor_id, sensor_eci=np.asarray(sen, dtype=float), sensor_type=sensor_type,
                                        measurement=meas, noisy=False)
 
@@ -375,7 +375,7 @@ def gen_iod(rng):
     while tof < 0.01 * P:
         tof += 1
     lead = rng.choice([2, rng.randrange(2, 900)])
-    det = rng.choice([0, lead - 1, rng.randrange(0, lead)])
+    det = rng.choice([0, lead - 1, rng.randrange(0, lead), lead])  # lead: the stored observation sits exactly on the window start
     x1 = K.state_from_coe(orb["a"], orb["e"], orb["inc"], orb["raan"], orb["argp"], orb["nu"])
     t1 = t0 + timedelta(seconds=lead)
     t2 = t1 + timedelta(seconds=tof)
@@ -420,13 +420,18 @@ def chk_iod(ctx, w):
     x2 = K.propagate(x1, tof)
     P = K.period(x1)
     frac = tof / P
-    if not (0.01 <= frac <= 0.399 and w["e"] <= 0.02 and det < lead):
+    if not (0.01 <= frac <= 0.399 and w["e"] <= 0.02 and det <= lead):
         return False
     tid, sid1, sid2, other = 10001, 20001, 20002, 10002
     s1 = ecef2eci(np.array([*w["site1_ecef"], 0.0, 0.0, 0.0]), t1)
     s2 = ecef2eci(np.array([*w["site2_ecef"], 0.0, 0.0, 0.0]), t2)
     stype = w.get("sensor_type", "adv_radar")
-    ob1 = _make_obs(t1, tid, x1, sid1, s1, stype, w["with_range_rate"])
+    jd1 = None
+    if det == lead:
+        # as in the pipeline (the observation that flagged the manoeuvre): its epoch and the window start come from the same expression
+        jd1 = float(ScenarioTime(lead).convertToJulianDate(JulianDate(timeref.jd_float(t0))))
+        ctx.count("iod_cases_with_observation_on_window_start")
+    ob1 = _make_obs(t1, tid, x1, sid1, s1, stype, w["with_range_rate"], epoch_jd=jd1)
     ob2 = _make_obs(t2, tid, x2, sid2, s2, stype, w["with_range_rate"])
     tol_r1 = _radar_tol(float(np.linalg.norm(x1[:3] - s1[:3])), float(ob1.elevation_rad))
     tol_r2 = _radar_tol(float(np.linalg.norm(x2[:3] - s2[:3])), float(ob2.elevation_rad))
@@ -459,7 +464,7 @@ def chk_iod(ctx, w):
         db = getDBConnection()
         db.insertData(AgentModel(unique_id=tid, name="tgt"), AgentModel(unique_id=other, name="other"),
                       AgentModel(unique_id=sid1, name="s1"), AgentModel(unique_id=sid2, name="s2"))
-        db.insertData(*[Epoch(julian_date=timeref.jd_float(t), timestampISO=t.isoformat(timespec="microseconds")) for t, _ in rows])
+        db.insertData(*[Epoch(julian_date=float(o.julian_date), timestampISO=t.isoformat(timespec="microseconds")) for t, o in rows])
         db.insertData(*[o for _, o in rows])
         iod = LambertIOD(int(w.get("min_spacing", 60)), _solver(w["solver"]), tid, JulianDate(timeref.jd_float(t0)))
         res, raised = None, None
